@@ -376,15 +376,17 @@ func runCaseRaw(c Case, outDir string, res *lib.Result) []string {
 				}
 				im := imgs[k]
 				expectedTouched[tr+"\x00"+t] = true
-				if e.Backup != "" {
-					expectedTouched[tr+"\x00"+strings.ReplaceAll(e.Backup, "{{.Ref.Tag}}", t)] = true
-				}
 				mediaOK := mediaAllowed(e, im.mt)
 				want := im.digest
 				if e.Platform && im.plat != "" {
 					want = im.plat
 				}
 				old, had := before[tr][t]
+				// a backup is taken only of a tag that is about to be overwritten: it exists and names neither the source
+				// image nor the configured platform's image
+				if e.Backup != "" && had && c.Action == "once" && mediaOK && old != want && old != im.digest {
+					expectedTouched[tr+"\x00"+strings.ReplaceAll(e.Backup, "{{.Ref.Tag}}", t)] = true
+				}
 				got := after[tr][t]
 				if failed {
 					continue
@@ -637,6 +639,9 @@ func Run(o lib.Opts) {
 		// check-only runs over every repository with a backup template: some target tag differs from its source, nothing may be written
 		{Kind: "sync", Seed: 75, Action: "check", Parallel: 1, Rounds: 2, Entry: Entry{Type: "registry", Backup: "bak-{{.Ref.Tag}}"}},
 		{Kind: "sync", Seed: 76, Action: "check", Parallel: 3, Rounds: 2, Entry: Entry{Type: "registry", Backup: "old-{{.Ref.Tag}}", Referrers: true}},
+		// a second run with (mostly) nothing to do, platform selection and a backup template: an idle run takes no backup
+		{Kind: "sync", Seed: 78, Action: "once", Parallel: 1, Rounds: 2, Entry: Entry{Type: "registry", Platform: true, Backup: "bak-{{.Ref.Tag}}"}},
+		{Kind: "sync", Seed: 79, Action: "once", Parallel: 2, Rounds: 2, Entry: Entry{Type: "registry", Platform: true, Backup: "old-{{.Ref.Tag}}"}},
 		{Kind: "sync", Seed: 77, Action: "check", Parallel: 2, Rounds: 1, Entry: Entry{Type: "repository", Repo: "proj/lib", Backup: "bak-{{.Ref.Tag}}"}},
 	}
 	n := o.Scale(70, 1200)
